@@ -158,8 +158,12 @@ def clip(x, /, min=None, max=None):
     if min is max is None:
         return x
     elif min is not None and max is None:
+
+        def clip_min(x_, min_):
+            return nxp.clip(x_, min=min_)
+
         min = asarray(min, spec=x.spec)
-        return elemwise(nxp.clip, x, min, dtype=x.dtype)
+        return elemwise(clip_min, x, min, dtype=x.dtype)
     elif min is None and max is not None:
 
         def clip_max(x_, max_):
